@@ -523,6 +523,19 @@ pub fn run(cfg: &Cfg, trim: bool) -> (&'static str, Report, String, String) {
             }
         }
     }));
+    // one byte of every UTF-8 class (ASCII, continuation low/high, 2-/3-/4-byte lead, never-valid) in haystack and
+    // needle: byte-slice patterns are arbitrary bytes, whatever the search loop assumes about char boundaries
+    let calpha = [0x61u8, 0x80, 0xBF, 0xC3, 0xE2, 0xF0, 0xFF];
+    let chs = bytes_upto(&calpha, cfg.by(2, 4, 5));
+    let cns = bytes_upto(&calpha, cfg.by(1, 2, 3));
+    rep.merge(par_for(cfg, chs.len(), |i, r| {
+        for n in &cns {
+            bytes_all_kinds(r, trim, &chs[i], n);
+            if !n.is_empty() && count_occ(&chs[i], n) >= 1 && chs[i].len() > n.len() {
+                r.nt(&(&chs[i], n));
+            }
+        }
+    }));
     // multi-byte needles whose encodings share bytes (ñ = C3 B1, ó = C3 B3, 個 = E5 80 8B, 倀 = E5 80 80)
     let malpha = ["ñ", "ó", "個", "倀", "x"];
     let mhs = strings_upto(&malpha, cfg.by(1, 4, 5));
@@ -535,6 +548,7 @@ pub fn run(cfg: &Cfg, trim: bool) -> (&'static str, Report, String, String) {
     // every lead-byte class as haystack text and as char / str needle
     let mut la: Vec<&str> = LEADS.to_vec();
     la.extend(LEADS_HI3);
+    la.extend(ASCII_EDGES);
     let lhs = strings_upto(&la, cfg.by(1, 2, 3));
     let lns = strings_upto(&la, 1);
     rep.merge(par_for(cfg, lhs.len(), |i, r| {
@@ -573,13 +587,19 @@ pub fn run(cfg: &Cfg, trim: bool) -> (&'static str, Report, String, String) {
     // search loops have their special cases at multiples of 8/16/32 bytes from the start or from q
     let maxl = cfg.by(18, 72, 140);
     rep.merge(par_for(cfg, maxl + 1, |l, r| {
-        for n in ["ab", "a", "abc", "ñb"] {
+        // short needles with a near miss at every earlier offset; long needles (word-at-a-time comparisons of the
+        // needle itself have their cases at 8/9/16/17/32/33 bytes) with a near miss at three offsets
+        for n in ["ab", "a", "abc", "ñb", "abcdefgh", "abcdefghi", "0123456789abcdef", "0123456789abcdefg", "abcdefghijklmnopqrstuvwxyz012345", "abcdefghijklmnopqrstuvwxyz0123456", "ñ23456789"] {
+            let long = n.len() >= 8;
+            if long && (cfg.miri() || l % 3 != 0) {
+                continue;
+            }
             let first = &n[..n.chars().next().unwrap().len_utf8()];
             for p in 0..=l {
                 if cfg.miri() && !(p % 8 <= 1 || p == l) {
                     continue;
                 }
-                let qs: Vec<Option<usize>> = if cfg.miri() { vec![None, Some(0)] } else { std::iter::once(None).chain((0..p).map(Some)).collect() };
+                let qs: Vec<Option<usize>> = if cfg.miri() { vec![None, Some(0)] } else if long { vec![None, Some(0), p.checked_sub(1)] } else { std::iter::once(None).chain((0..p).map(Some)).collect() };
                 for q in qs {
                     // filler 'x' everywhere, needle at byte offset p (of the filler), near miss at q
                     let mut h = String::with_capacity(l + 8);
@@ -596,6 +616,22 @@ pub fn run(cfg: &Cfg, trim: bool) -> (&'static str, Report, String, String) {
                         h.push_str(n);
                     }
                     pair(r, trim, &h, n);
+                }
+            }
+        }
+        // one-byte needles next to their bit-neighbours (what a word-at-a-time byte test confuses them with)
+        if l >= 2 && !cfg.miri() {
+            for d in [b',', b'/', b'a', 0x80u8] {
+                for nb in [d ^ 1, d.wrapping_add(1), d.wrapping_sub(1), d ^ 0x80] {
+                    for p in 0..l - 1 {
+                        for order in 0..2 {
+                            let mut h = vec![b'x'; l];
+                            let (a, b) = if order == 0 { (d, nb) } else { (nb, d) };
+                            h[p] = a;
+                            h[p + 1] = b;
+                            bytes_all_kinds(r, trim, &h, &[d]);
+                        }
+                    }
                 }
             }
         }
